@@ -952,8 +952,13 @@ pub fn write_evidence<P: Prop>(p: &P, tier: Tier, seed: u64, parts: &[Part], wal
     let _ = coverage.insert(
         "rule".into(),
         json!(format!(
-            "{} distinct_nontrivial is the number of distinct fingerprints (hash of the serialised case) among non-trivial cases, taken as the maximum over the build profiles (the profiles run different random cases, so this is conservative).",
-            p.rule()
+            "{} {}",
+            p.rule(),
+            if sub > 0 {
+                "evaluations counts the sub-executions (one per injected fault); distinct_nontrivial counts the non-trivial sub-executions of cases whose fingerprint (hash of the serialised case) had not been seen before, so (case, fault) pairs are distinct; generated_cases / distinct_nontrivial_cases give the numbers of generated histories."
+            } else {
+                "distinct_nontrivial is the number of distinct fingerprints (hash of the serialised case) among non-trivial cases, taken as the maximum over the build profiles (the profiles run different random cases, so this is conservative)."
+            }
         )),
     );
     if sub > 0 {
